@@ -7,7 +7,7 @@ MANIFEST = {
             "the tree with exactly the printer's parentheses), C22_fuel_adequate, C22_prec_table_covered (every operator of the regenerated Token.Precedence table is inside the theorem's domain). "
             "FULL on the fragment wf = ident, literals, number-unit, $env, all 19 binary operators, unary + - ! ^ & <-, *x, paren, selector, index, call with ..., x! x? x?:d, x.(T), lambda expressions (all four parameter/result forms); "
             "PARTIAL for C22 as a whole: slice and composite/slice literal are only checked by the differential run and the oracle (three non-round-tripping shapes are proved "
-            "as model witnesses C22_witness_* and recorded as findings); command-style calls and statements are not modelled.",
+            "as model witnesses C22_witness_* and recorded as findings); command-style calls and statements are not modelled; a synthesized STATEMENT-tree family (every ast.Stmt kind incl. explicit/implicit empty statements, labels around every kind in every list position, case/comm clauses, init statements, decl statements, XGo for-in) is checked by the oracle only (real printer.Fprint -> real ParseFile -> structural compare): no Lean theorem covers statements.",
     "note": "trusted: Lean kernel (propext, Classical.choice, Quot.sound); the hand-written model M3 (tied by the differential run: rendered text byte-for-byte against printer.Fprint, "
             "token stream against the real scanner, parse result against parser.ParseExpr, combines-table against the real scanner on all operator pairs) and the translator target prec "
             "(Token.Precedence, *Prec constants, mayCombine are regenerated from /repo on every run); identifiers/literal texts are opaque byte strings assumed to scan as one token of their kind.",
@@ -16,7 +16,7 @@ MANIFEST = {
 
 RULE = ("exhaustive: every binary operator x 30 operand shapes on both sides (unary ops, *x, x!, x?, x?:d, selector, call, index, lambda) in normal and compact mode, "
         "all ordered pairs of binary operators in both association orders, every unary/postfix form over the same operands; all ordered pairs of operator tokens + 13 word/literal classes "
-        "for the glue table; a corpus of 150 expression strings and token-level mutants of printed trees for the parser tie; random synthesized trees (depth<=4) over all M3 node kinds from the "
+        "for the glue table; a corpus of 150 expression strings and token-level mutants of printed trees for the parser tie; random synthesized trees (depth<=4) over all M3 node kinds and N/4+200 synthesized func bodies over all statement kinds from the "
         "one seed; a case is non-trivial when its tree has more than one node")
 
 
